@@ -1,374 +1,293 @@
-// Package lin: linear expressions over integer atoms and a Fourier–Motzkin infeasibility test
-// over the rationals (sound for the integers: rational infeasibility implies integer
-// infeasibility; incompleteness only ever yields "undecided").
+// Package lin: linear expressions over integer atoms with int64 coefficients and a
+// Fourier–Motzkin infeasibility test with integer tightening. The test is sound for the
+// integers (a reported infeasibility is real); incompleteness and arithmetic overflow only ever
+// yield "undecided".
 package lin
 
 import (
 	"fmt"
-	"math/big"
+	"math/bits"
 	"sort"
 	"strings"
 )
 
-// Lin is Σ co[v]·v + c with rational coefficients.
+// Lin is Σ cs[i]·vs[i] + c with vs strictly increasing.
 type Lin struct {
-	co map[int]*big.Rat
-	c  *big.Rat
+	vs  []int
+	cs  []int64
+	c   int64
+	bad bool // an overflow happened while building it: carries no information
 }
 
-func New() *Lin { return &Lin{co: map[int]*big.Rat{}, c: new(big.Rat)} }
+func New() *Lin            { return &Lin{} }
+func Const(n int64) *Lin   { return &Lin{c: n} }
+func Var(v int) *Lin       { return &Lin{vs: []int{v}, cs: []int64{1}} }
+func (l *Lin) Clone() *Lin { return l } // immutable
 
-func Const(n int64) *Lin {
-	l := New()
-	l.c.SetInt64(n)
-	return l
-}
-
-func Var(v int) *Lin {
-	l := New()
-	l.co[v] = big.NewRat(1, 1)
-	return l
-}
-
-func (l *Lin) Clone() *Lin {
-	r := &Lin{co: make(map[int]*big.Rat, len(l.co)), c: new(big.Rat).Set(l.c)}
-	for k, v := range l.co {
-		r.co[k] = new(big.Rat).Set(v)
+func mulOK(a, b int64) (int64, bool) {
+	if a == 0 || b == 0 {
+		return 0, true
 	}
-	return r
+	neg := (a < 0) != (b < 0)
+	ua, ub := uint64(a), uint64(b)
+	if a < 0 {
+		ua = uint64(-a)
+	}
+	if b < 0 {
+		ub = uint64(-b)
+	}
+	hi, lo := bits.Mul64(ua, ub)
+	if hi != 0 || lo > 1<<62 {
+		return 0, false
+	}
+	if neg {
+		return -int64(lo), true
+	}
+	return int64(lo), true
 }
 
-func (l *Lin) AddScaled(o *Lin, k *big.Rat) *Lin {
-	r := l.Clone()
-	for v, c := range o.co {
-		t := new(big.Rat).Mul(c, k)
-		if e, ok := r.co[v]; ok {
-			e.Add(e, t)
-			if e.Sign() == 0 {
-				delete(r.co, v)
+func addOK(a, b int64) (int64, bool) {
+	s := a + b
+	if (a > 0 && b > 0 && s < 0) || (a < 0 && b < 0 && s >= 0) {
+		return 0, false
+	}
+	if s > 1<<62 || s < -(1<<62) {
+		return 0, false
+	}
+	return s, true
+}
+
+// comb returns ka*a + kb*b.
+func comb(a *Lin, ka int64, b *Lin, kb int64) *Lin {
+	r := &Lin{bad: a.bad || b.bad}
+	if r.bad {
+		return r
+	}
+	r.vs = make([]int, 0, len(a.vs)+len(b.vs))
+	r.cs = make([]int64, 0, len(a.vs)+len(b.vs))
+	i, j := 0, 0
+	push := func(v int, c int64) {
+		if c != 0 {
+			r.vs = append(r.vs, v)
+			r.cs = append(r.cs, c)
+		}
+	}
+	for i < len(a.vs) || j < len(b.vs) {
+		switch {
+		case j >= len(b.vs) || (i < len(a.vs) && a.vs[i] < b.vs[j]):
+			p, ok := mulOK(a.cs[i], ka)
+			if !ok {
+				return &Lin{bad: true}
 			}
-		} else if t.Sign() != 0 {
-			r.co[v] = t
+			push(a.vs[i], p)
+			i++
+		case i >= len(a.vs) || b.vs[j] < a.vs[i]:
+			p, ok := mulOK(b.cs[j], kb)
+			if !ok {
+				return &Lin{bad: true}
+			}
+			push(b.vs[j], p)
+			j++
+		default:
+			p, ok1 := mulOK(a.cs[i], ka)
+			q, ok2 := mulOK(b.cs[j], kb)
+			s, ok3 := addOK(p, q)
+			if !ok1 || !ok2 || !ok3 {
+				return &Lin{bad: true}
+			}
+			push(a.vs[i], s)
+			i++
+			j++
 		}
 	}
-	r.c.Add(r.c, new(big.Rat).Mul(o.c, k))
+	p, ok1 := mulOK(a.c, ka)
+	q, ok2 := mulOK(b.c, kb)
+	s, ok3 := addOK(p, q)
+	if !ok1 || !ok2 || !ok3 {
+		return &Lin{bad: true}
+	}
+	r.c = s
 	return r
 }
 
-var one = big.NewRat(1, 1)
-var minusOne = big.NewRat(-1, 1)
+func (l *Lin) Add(o *Lin) *Lin       { return comb(l, 1, o, 1) }
+func (l *Lin) Sub(o *Lin) *Lin       { return comb(l, 1, o, -1) }
+func (l *Lin) Scale(k int64) *Lin    { return comb(l, k, &Lin{}, 0) }
+func (l *Lin) AddConst(k int64) *Lin { return comb(l, 1, &Lin{c: k}, 1) }
+func (l *Lin) IsConst() bool         { return !l.bad && len(l.vs) == 0 }
+func (l *Lin) Bad() bool             { return l.bad }
 
-func (l *Lin) Add(o *Lin) *Lin      { return l.AddScaled(o, one) }
-func (l *Lin) Sub(o *Lin) *Lin      { return l.AddScaled(o, minusOne) }
-func (l *Lin) Scale(k int64) *Lin   { return New().AddScaled(l, big.NewRat(k, 1)) }
-func (l *Lin) AddConst(k int64) *Lin { return l.Add(Const(k)) }
-func (l *Lin) IsConst() bool        { return len(l.co) == 0 }
-
-// ConstVal returns the constant if the expression is an integer constant.
 func (l *Lin) ConstVal() (int64, bool) {
-	if len(l.co) != 0 || !l.c.IsInt() {
+	if l.bad || len(l.vs) != 0 {
 		return 0, false
 	}
-	return l.c.Num().Int64(), l.c.Num().IsInt64()
+	return l.c, true
 }
 
-// SingleVar reports whether l is exactly 1·v (+0).
 func (l *Lin) SingleVar() (int, bool) {
-	if len(l.co) != 1 || l.c.Sign() != 0 {
+	if l.bad || len(l.vs) != 1 || l.c != 0 || l.cs[0] != 1 {
 		return 0, false
 	}
-	for v, c := range l.co {
-		if c.Cmp(one) == 0 {
-			return v, true
-		}
-	}
-	return 0, false
+	return l.vs[0], true
 }
 
-func (l *Lin) Vars() []int {
-	vs := make([]int, 0, len(l.co))
-	for v := range l.co {
-		vs = append(vs, v)
+func (l *Lin) Vars() []int { return l.vs }
+
+func (l *Lin) coef(v int) int64 {
+	i := sort.SearchInts(l.vs, v)
+	if i < len(l.vs) && l.vs[i] == v {
+		return l.cs[i]
 	}
-	sort.Ints(vs)
-	return vs
+	return 0
 }
 
-func (l *Lin) Has(v int) bool { _, ok := l.co[v]; return ok }
+func (l *Lin) Has(v int) bool { return l.coef(v) != 0 }
 
 // Subst replaces variable v by expression e.
 func (l *Lin) Subst(v int, e *Lin) *Lin {
-	c, ok := l.co[v]
-	if !ok {
+	c := l.coef(v)
+	if c == 0 {
 		return l
 	}
-	r := l.Clone()
-	delete(r.co, v)
-	return r.AddScaled(e, c)
+	without := comb(l, 1, Var(v), -c)
+	return comb(without, 1, e, c)
 }
 
 func (l *Lin) Equal(o *Lin) bool {
-	if len(l.co) != len(o.co) || l.c.Cmp(o.c) != 0 {
+	if l.bad || o.bad || len(l.vs) != len(o.vs) || l.c != o.c {
 		return false
 	}
-	for v, c := range l.co {
-		d, ok := o.co[v]
-		if !ok || c.Cmp(d) != 0 {
+	for i := range l.vs {
+		if l.vs[i] != o.vs[i] || l.cs[i] != o.cs[i] {
 			return false
 		}
 	}
 	return true
 }
 
-// String renders with a naming function.
 func (l *Lin) String(name func(int) string) string {
+	if l.bad {
+		return "<overflow>"
+	}
 	var parts []string
-	for _, v := range l.Vars() {
-		c := l.co[v]
+	for i, v := range l.vs {
+		c := l.cs[i]
 		n := fmt.Sprintf("v%d", v)
 		if name != nil {
 			n = name(v)
 		}
 		switch {
-		case c.Cmp(one) == 0:
+		case c == 1:
 			parts = append(parts, "+"+n)
-		case c.Cmp(minusOne) == 0:
+		case c == -1:
 			parts = append(parts, "-"+n)
-		case c.Sign() > 0:
-			parts = append(parts, "+"+c.RatString()+"*"+n)
+		case c > 0:
+			parts = append(parts, fmt.Sprintf("+%d*%s", c, n))
 		default:
-			parts = append(parts, c.RatString()+"*"+n)
+			parts = append(parts, fmt.Sprintf("%d*%s", c, n))
 		}
 	}
-	if l.c.Sign() != 0 || len(parts) == 0 {
-		if l.c.Sign() >= 0 {
-			parts = append(parts, "+"+l.c.RatString())
+	if l.c != 0 || len(parts) == 0 {
+		if l.c >= 0 {
+			parts = append(parts, fmt.Sprintf("+%d", l.c))
 		} else {
-			parts = append(parts, l.c.RatString())
+			parts = append(parts, fmt.Sprintf("%d", l.c))
 		}
 	}
 	return strings.TrimPrefix(strings.Join(parts, " "), "+")
 }
 
-func (l *Lin) Key() string { return l.String(nil) }
+// Key is a compact canonical encoding.
+func (l *Lin) Key() string {
+	if l.bad {
+		return "!"
+	}
+	b := make([]byte, 0, 10*len(l.vs)+10)
+	put := func(x int64) {
+		u := uint64(x<<1) ^ uint64(x>>63)
+		for u >= 0x80 {
+			b = append(b, byte(u)|0x80)
+			u >>= 7
+		}
+		b = append(b, byte(u))
+	}
+	for i, v := range l.vs {
+		put(int64(v))
+		put(l.cs[i])
+	}
+	b = append(b, 0xFF)
+	put(l.c)
+	return string(b)
+}
 
 // Ineq is L <= 0.
 type Ineq struct{ L *Lin }
 
-// LE builds a <= b.
-func LE(a, b *Lin) Ineq { return Ineq{a.Sub(b)} }
-
-// LT builds a < b over the integers (a - b + 1 <= 0).
-func LT(a, b *Lin) Ineq { return Ineq{a.Sub(b).Add(Const(1))} }
-
-func GE(a, b *Lin) Ineq { return LE(b, a) }
-func GT(a, b *Lin) Ineq { return LT(b, a) }
-
-// EQ returns the two inequalities of a == b.
+func LE(a, b *Lin) Ineq   { return Ineq{a.Sub(b)} }
+func LT(a, b *Lin) Ineq   { return Ineq{a.Sub(b).AddConst(1)} }
+func GE(a, b *Lin) Ineq   { return LE(b, a) }
+func GT(a, b *Lin) Ineq   { return LT(b, a) }
 func EQ(a, b *Lin) []Ineq { return []Ineq{LE(a, b), LE(b, a)} }
 
-// Neg is the integer negation of q: ¬(L <= 0) = L >= 1 = -L + 1 <= 0.
-func (q Ineq) Neg() Ineq { return Ineq{q.L.Scale(-1).Add(Const(1))} }
+// Neg is the integer negation: ¬(L <= 0) = -L + 1 <= 0.
+func (q Ineq) Neg() Ineq { return Ineq{q.L.Scale(-1).AddConst(1)} }
 
 func (q Ineq) String(name func(int) string) string { return q.L.String(name) + " <= 0" }
+func (q Ineq) Key() string                         { return q.L.Key() }
+func (q Ineq) Subst(v int, e *Lin) Ineq            { return Ineq{q.L.Subst(v, e)} }
 
-func (q Ineq) Key() string { return q.L.Key() }
-
-// Subst substitutes in an inequality.
-func (q Ineq) Subst(v int, e *Lin) Ineq { return Ineq{q.L.Subst(v, e)} }
-
-// Trivial reports whether the inequality has no variables; ok tells whether it holds.
+// Trivial reports whether the inequality has no variables; holds tells whether it is true.
+// An overflowed inequality is treated as trivially true (it carries no information).
 func (q Ineq) Trivial() (trivial, holds bool) {
-	if !q.L.IsConst() {
+	if q.L.bad {
+		return true, true
+	}
+	if len(q.L.vs) != 0 {
 		return false, false
 	}
-	return true, q.L.c.Sign() <= 0
+	return true, q.L.c <= 0
 }
 
-// Slice keeps only the inequalities transitively sharing variables with the seed variables.
-func Slice(facts []Ineq, seed []int) []Ineq {
-	want := map[int]bool{}
-	for _, v := range seed {
-		want[v] = true
+func gcd(a, b int64) int64 {
+	if a < 0 {
+		a = -a
 	}
-	used := make([]bool, len(facts))
-	var out []Ineq
-	for changed := true; changed; {
-		changed = false
-		for i, f := range facts {
-			if used[i] {
-				continue
-			}
-			hit := false
-			for v := range f.L.co {
-				if want[v] {
-					hit = true
-					break
-				}
-			}
-			if f.L.IsConst() {
-				hit = true
-			}
-			if hit {
-				used[i] = true
-				out = append(out, f)
-				for v := range f.L.co {
-					if !want[v] {
-						want[v] = true
-						changed = true
-					}
-				}
-			}
-		}
+	if b < 0 {
+		b = -b
 	}
-	return out
+	for b != 0 {
+		a, b = b, a%b
+	}
+	return a
 }
 
-// Infeasible reports whether the conjunction is infeasible over the rationals.
-// budget bounds the number of derived inequalities per elimination step; exceeding it gives
-// false (undecided).
-func Infeasible(ineqs []Ineq, budget int) bool {
-	cur := make([]*Lin, 0, len(ineqs))
-	seen := map[string]bool{}
-	for _, q := range ineqs {
-		k := q.L.Key()
-		if !seen[k] {
-			seen[k] = true
-			cur = append(cur, q.L)
-		}
+// tighten divides by the gcd of the coefficients, rounding the constant up (integer variables).
+func tighten(l *Lin) *Lin {
+	if l.bad || len(l.vs) == 0 {
+		return l
 	}
-	for {
-		vars := map[int][2]int{}
-		next := cur[:0:0]
-		for _, l := range cur {
-			if l.IsConst() {
-				if l.c.Sign() > 0 {
-					return true
-				}
-				continue
-			}
-			next = append(next, l)
-			for v, c := range l.co {
-				pn := vars[v]
-				if c.Sign() > 0 {
-					pn[0]++
-				} else {
-					pn[1]++
-				}
-				vars[v] = pn
-			}
-		}
-		cur = next
-		if len(cur) == 0 {
-			return false
-		}
-		// drop variables that occur with one sign only (their constraints are always satisfiable)
-		dropped := false
-		for v, pn := range vars {
-			if pn[0] == 0 || pn[1] == 0 {
-				keep := cur[:0:0]
-				for _, l := range cur {
-					if _, ok := l.co[v]; !ok {
-						keep = append(keep, l)
-					}
-				}
-				cur = keep
-				dropped = true
-				break
-			}
-		}
-		if dropped {
-			continue
-		}
-		best, bestCost := -1, 1<<60
-		keys := make([]int, 0, len(vars))
-		for v := range vars {
-			keys = append(keys, v)
-		}
-		sort.Ints(keys)
-		for _, v := range keys {
-			pn := vars[v]
-			cost := pn[0]*pn[1] - pn[0] - pn[1]
-			if cost < bestCost {
-				best, bestCost = v, cost
-			}
-		}
-		var pos, neg, rest []*Lin
-		for _, l := range cur {
-			if c, ok := l.co[best]; ok {
-				if c.Sign() > 0 {
-					pos = append(pos, l)
-				} else {
-					neg = append(neg, l)
-				}
-			} else {
-				rest = append(rest, l)
-			}
-		}
-		if len(pos)*len(neg)+len(rest) > budget {
-			return false
-		}
-		dedup := map[string]bool{}
-		for _, r := range rest {
-			dedup[r.Key()] = true
-		}
-		for _, p := range pos {
-			for _, n := range neg {
-				a := p.co[best]
-				b := new(big.Rat).Neg(n.co[best])
-				r := New().AddScaled(p, b).AddScaled(n, a)
-				delete(r.co, best)
-				r.normalize()
-				k := r.Key()
-				if dedup[k] {
-					continue
-				}
-				dedup[k] = true
-				rest = append(rest, r)
-			}
-		}
-		cur = rest
+	g := int64(0)
+	for _, c := range l.cs {
+		g = gcd(g, c)
 	}
-}
-
-// normalize divides by the smallest absolute coefficient so that syntactically equal
-// consequences are recognised as duplicates.
-func (l *Lin) normalize() {
-	var m *big.Rat
-	for _, c := range l.co {
-		a := new(big.Rat).Abs(c)
-		if m == nil || a.Cmp(m) < 0 {
-			m = a
-		}
+	if g <= 1 {
+		return l
 	}
-	if m == nil || m.Cmp(one) == 0 || m.Sign() == 0 {
-		return
+	r := &Lin{vs: l.vs, cs: make([]int64, len(l.cs))}
+	for i, c := range l.cs {
+		r.cs[i] = c / g
 	}
-	inv := new(big.Rat).Inv(m)
-	for v, c := range l.co {
-		l.co[v] = new(big.Rat).Mul(c, inv)
+	// ceil(c/g)
+	q := l.c / g
+	if l.c%g != 0 && l.c > 0 {
+		q++
 	}
-	l.c.Mul(l.c, inv)
-}
-
-// Entails: facts ⊨ goal over the integers (sufficient test).
-func Entails(facts []Ineq, goal Ineq) bool {
-	if t, h := goal.Trivial(); t {
-		if h {
-			return true
-		}
-		// a false constant goal is entailed only by infeasible facts
-		return Infeasible(facts, 6000)
-	}
-	neg := goal.Neg()
-	sl := Slice(facts, neg.L.Vars())
-	all := append(append(make([]Ineq, 0, len(sl)+1), sl...), neg)
-	return Infeasible(all, 6000)
+	r.c = q
+	return r
 }
 
 // SliceHops keeps the inequalities reachable from the seed variables through at most `hops`
-// rounds of variable sharing. complete reports whether the result is closed (no further
-// inequality shares a variable with it).
+// rounds of variable sharing. complete reports whether the result is closed.
 func SliceHops(facts []Ineq, seed []int, hops int) (out []Ineq, complete bool) {
 	want := map[int]bool{}
 	for _, v := range seed {
@@ -379,12 +298,12 @@ func SliceHops(facts []Ineq, seed []int, hops int) (out []Ineq, complete bool) {
 		var add []int
 		grew := false
 		for i, f := range facts {
-			if used[i] {
+			if used[i] || f.L.bad {
 				continue
 			}
-			hit := f.L.IsConst()
+			hit := len(f.L.vs) == 0
 			if !hit {
-				for v := range f.L.co {
+				for _, v := range f.L.vs {
 					if want[v] {
 						hit = true
 						break
@@ -398,7 +317,7 @@ func SliceHops(facts []Ineq, seed []int, hops int) (out []Ineq, complete bool) {
 				used[i] = true
 				out = append(out, f)
 				grew = true
-				for v := range f.L.co {
+				for _, v := range f.L.vs {
 					if !want[v] {
 						add = append(add, v)
 					}
@@ -414,12 +333,18 @@ func SliceHops(facts []Ineq, seed []int, hops int) (out []Ineq, complete bool) {
 	}
 }
 
+// Slice keeps everything transitively connected to the seed.
+func Slice(facts []Ineq, seed []int) []Ineq {
+	out, _ := SliceHops(facts, seed, 1<<30)
+	return out
+}
+
 // VarsOf collects the variables of a set of inequalities.
 func VarsOf(qs []Ineq) []int {
 	seen := map[int]bool{}
 	var out []int
 	for _, q := range qs {
-		for v := range q.L.co {
+		for _, v := range q.L.vs {
 			if !seen[v] {
 				seen[v] = true
 				out = append(out, v)
@@ -428,4 +353,138 @@ func VarsOf(qs []Ineq) []int {
 	}
 	sort.Ints(out)
 	return out
+}
+
+// Infeasible reports whether the conjunction has no integer solution (sufficient test).
+// budget bounds the size of the intermediate systems.
+func Infeasible(ineqs []Ineq, budget int) bool {
+	cur := make([]*Lin, 0, len(ineqs))
+	seen := map[string]bool{}
+	for _, q := range ineqs {
+		if q.L.bad {
+			continue
+		}
+		l := tighten(q.L)
+		k := l.Key()
+		if !seen[k] {
+			seen[k] = true
+			cur = append(cur, l)
+		}
+	}
+	type pn struct{ p, n int }
+	for {
+		vars := map[int]pn{}
+		next := cur[:0:0]
+		for _, l := range cur {
+			if len(l.vs) == 0 {
+				if l.c > 0 {
+					return true
+				}
+				continue
+			}
+			next = append(next, l)
+			for i, v := range l.vs {
+				x := vars[v]
+				if l.cs[i] > 0 {
+					x.p++
+				} else {
+					x.n++
+				}
+				vars[v] = x
+			}
+		}
+		cur = next
+		if len(cur) == 0 {
+			return false
+		}
+		// variables occurring with one sign only: drop their inequalities
+		oneSided := map[int]bool{}
+		for v, x := range vars {
+			if x.p == 0 || x.n == 0 {
+				oneSided[v] = true
+			}
+		}
+		if len(oneSided) > 0 {
+			keep := cur[:0:0]
+			for _, l := range cur {
+				drop := false
+				for _, v := range l.vs {
+					if oneSided[v] {
+						drop = true
+						break
+					}
+				}
+				if !drop {
+					keep = append(keep, l)
+				}
+			}
+			cur = keep
+			continue
+		}
+		best, bestCost := -1, 1<<60
+		for v, x := range vars {
+			cost := x.p*x.n - x.p - x.n
+			if cost < bestCost || (cost == bestCost && v < best) {
+				best, bestCost = v, cost
+			}
+		}
+		var pos, neg, rest []*Lin
+		for _, l := range cur {
+			c := l.coef(best)
+			switch {
+			case c > 0:
+				pos = append(pos, l)
+			case c < 0:
+				neg = append(neg, l)
+			default:
+				rest = append(rest, l)
+			}
+		}
+		if len(pos)*len(neg)+len(rest) > budget {
+			return false
+		}
+		dedup := make(map[string]bool, len(rest)+len(pos)*len(neg))
+		for _, r := range rest {
+			dedup[r.Key()] = true
+		}
+		for _, p := range pos {
+			a := p.coef(best)
+			for _, n := range neg {
+				b := -n.coef(best)
+				g := gcd(a, b)
+				r := comb(p, b/g, n, a/g)
+				if r.bad {
+					continue
+				}
+				r = tighten(r)
+				if len(r.vs) == 0 {
+					if r.c > 0 {
+						return true
+					}
+					continue
+				}
+				k := r.Key()
+				if dedup[k] {
+					continue
+				}
+				dedup[k] = true
+				rest = append(rest, r)
+			}
+		}
+		cur = rest
+	}
+}
+
+// Entails: facts ⊨ goal over the integers (sufficient test).
+func Entails(facts []Ineq, goal Ineq) bool {
+	if t, h := goal.Trivial(); t {
+		if h {
+			return !goal.L.bad
+		}
+		return Infeasible(facts, 6000)
+	}
+	neg := goal.Neg()
+	sl := Slice(facts, neg.L.Vars())
+	all := append(append(make([]Ineq, 0, len(sl)+1), sl...), neg)
+	return Infeasible(all, 6000)
 }
